@@ -89,6 +89,10 @@ ConvBig == [op : {"conv_big"}, alg : {"ss_public", "ntt"}, bits : BigBits, lg : 
 \* full-size period-2 operands through the public dispatcher at every second modulus size in the ten bits above
 \* each packing-class limit (a limit moved by a few bits overflows a slot only once 2 bits + log2 size exceeds it)
 EdgeBits == {152, 154, 156, 158, 160, 247, 249, 251, 253, 255, 282, 284, 286, 288, 290, 312, 314, 316, 318}
+\* the multi-prime back end at the modulus sizes just below each step of its CRT width (2 bits = 58 j - 2: the
+\* transform size is what pushes the required number of primes to j + 1)
+NttEdgeBits == {29 * j - 1 : j \in 3..17}
+ConvBigNtt == [op : {"conv_big"}, alg : {"ntt"}, bits : NttEdgeBits, lg : {10, 13}, pat : {"ptop"}]
 ConvBigEdge == [op : {"conv_big"}, alg : {"ss_public"}, bits : EdgeBits, lg : {10, 13} \cup (IF SizeCap > 1 THEN {15} ELSE {}), pat : {"ptop"}]
 
 Name(x) ==
@@ -104,7 +108,7 @@ Name(x) ==
     [] x.op = "polyq" -> [op |-> "poly", pop |-> "quot", bits |-> BitsSet[x.bits], len |-> QuotLens[x.len],
                           lenpat |-> x.lead, coef |-> Coefs[x.coef], ntt |-> x.ntt]
 
-Init == s \in FInt \cup ConvSS \cup ConvNTT \cup Poly \cup PolyTiny \cup QuotLead \cup ConvBig \cup ConvBigEdge
+Init == s \in FInt \cup ConvSS \cup ConvNTT \cup Poly \cup PolyTiny \cup QuotLead \cup ConvBig \cup ConvBigEdge \cup ConvBigNtt
 Next == UNCHANGED s
 Emit == PrintT(<<"SHAPE", ToJson(Name(s))>>)
 =============================================================================
